@@ -10,6 +10,7 @@ import (
 	smtp "github.com/emersion/go-smtp"
 
 	"verifharness/core"
+	"verifharness/memconn"
 	"verifharness/rec"
 	"verifharness/wire"
 )
@@ -90,6 +91,15 @@ func c04Run(ctx *core.Ctx) {
 				}
 			}
 		}
+		// a connection whose reply writes fail from the k-th on, then an ordinary connection to the
+		// same server: what could not be delivered to the first peer is nobody else's reply
+		for k := 0; k <= 8; k++ {
+			for _, mode := range []srvMode{modeSMTP, modeLMTPRcpt} {
+				for rep := 0; rep < 3; rep++ {
+					emit(c04Case{Kind: "afterfail", FireAt: k, Mode: mode, Octet: rep})
+				}
+			}
+		}
 		for _, site := range []string{"Mail", "Rcpt", "Data"} {
 			for _, t2 := range []string{"data", "bdat"} {
 				for _, mode := range []srvMode{modeSMTP, modeLMTPRcpt, modeLMTP} {
@@ -126,6 +136,58 @@ func c04Exec(ctx *core.Ctx, c c04Case) {
 		c04Clock(ctx, c)
 	case "slowcb":
 		c04SlowCallback(ctx, c)
+	case "afterfail":
+		c04AfterFail(ctx, c)
+	}
+}
+
+// c04AfterFail: connection 1 pipelines a conversation and goes away; the server's writes on it
+// fail from the FireAt-th on. Connection 2 of the same server then holds an ordinary lock-step
+// conversation: exactly one reply per command, each the reply to that command - nothing that was
+// meant for connection 1.
+func c04AfterFail(ctx *core.Ctx, c c04Case) {
+	ctx.Eval(fmt.Sprintf("afterfail|%d|%s|%d", c.FireAt, c.Mode, c.Octet), true)
+	rig := newRig(c.Mode, nil)
+	p1 := rig.DialWith(func(srv *memconn.Conn) { srv.FailWriteAfter(c.FireAt, memconn.ErrReset) })
+	p1.SendStr(c.Mode.hello() + "\r\nNOOP\r\nMAIL FROM:<first@x.test>\r\nRCPT TO:<first-r@x.test>\r\nVRFY someone\r\nRSET\r\nNOOP\r\nQUIT\r\n")
+	p1.Raw.CloseWrite()
+	p1.ReadAll()
+	p1.Close()
+	p := rig.Dial()
+	var all []wire.Reply
+	steps := []struct {
+		send string
+		want int
+	}{{"", 220}, {c.Mode.hello() + "\r\n", 250}, {"NOOP\r\n", 250}, {"MAIL FROM:<second@x.test>\r\n", 250}, {"RCPT TO:<second-r@x.test>\r\n", 250}, {"DATA\r\n", 354}, {"body\r\n.\r\n", 250}, {"QUIT\r\n", 221}}
+	for _, st := range steps {
+		if st.send != "" {
+			p.SendStr(st.send)
+		}
+		rs, _ := p.ReadUntilStall()
+		all = append(all, rs...)
+		ctx.Add("replies_parsed", int64(len(rs)))
+		bad := len(rs) != 1 || rs[0].Code != st.want
+		if !bad && st.want == 250 && strings.HasPrefix(st.send, "MAIL") && !strings.Contains(rs[0].Text(), "second@x.test") {
+			bad = true // the MAIL reply names its sender
+		}
+		if !bad {
+			for _, r := range rs {
+				if strings.Contains(r.Text(), "first") {
+					bad = true
+				}
+			}
+		}
+		if bad {
+			p.Close()
+			rig.Finish()
+			ctx.Violate("C04:reply-of-another-connection", fmt.Sprintf("after a connection whose writes failed from the %d-th on, %q on a new connection was answered %s (expected one %d reply of its own)", c.FireAt, st.send, replyStrings(rs), st.want), c, witness(rig.Log, all))
+			return
+		}
+	}
+	p.Close()
+	rig.Finish()
+	if ctx.WantSample("afterfail") {
+		ctx.Sample("afterfail", map[string]any{"writes_before_failure_on_first_connection": c.FireAt, "mode": c.Mode, "second_connection_replies": codes(all)})
 	}
 }
 
